@@ -365,6 +365,112 @@ def mon_c11(tr: Trace, every: int = 1) -> list[Violation]:
 
 # ------------------------------------------------------------------ C02
 
+def _c02_turn_end(tick: Any, cmds: list) -> str:
+    """how the invocation whose result tick this is ended its turn (read off the tick's INPUT, the result list, and the
+    commands of that reduction)"""
+    if not isinstance(tick, T.TickStepResult):
+        return type(tick).__name__
+    rs = tick.result
+    if any(isinstance(r, R.StepWorkerResult) for r in rs):
+        return "completed"
+    if any(isinstance(r, R.StepWorkerFailed) for r in rs):
+        qs = [k for k in cmds if isinstance(k, C.CommandQueueEvent)]
+        if any(type(k.event).__name__ == "StepFailedEvent" for k in qs):
+            return "failed_routed_to_handler"
+        if qs:
+            return "failed_retry_scheduled"
+        return "failed"
+    if any(isinstance(r, R.AddWaiter) for r in rs):
+        return "suspended_in_wait"
+    if any(isinstance(r, R.AddCollectedEvent) for r in rs):
+        return "collecting"
+    return "no_result"
+
+
+def c02_pair_handover(before: Any, tick: Any, after: Any, cmds: list) -> list[tuple[str, str]]:
+    """the same rule on ONE reduction of the pure reducer (direct (state, tick) pairs): the pre-state holds queued events
+    only for steps whose workers are all taken; unless the tick ends the run, so does the result -- a slot the tick freed
+    goes to the head of that step's queue in the same reduction, whatever made the invocation give the slot back"""
+    if after is None or _is_exit(cmds):
+        return []
+    if any(ws.queue and len(ws.in_progress) < ws.config.num_workers for ws in before.workers.values()):
+        return []  # not a state a run can be in (the generator also emits those)
+    for name, ws in after.workers.items():
+        if ws.queue and len(ws.in_progress) < ws.config.num_workers:
+            started = [k for k in cmds if isinstance(k, C.CommandRunWorker) and k.step_name == name]
+            how = _c02_turn_end(tick, cmds) if isinstance(tick, T.TickStepResult) and tick.step_name == name else "other_tick"
+            return [(f"C02/accepted_event_not_handed_to_step_with_free_worker:after_{how}",
+                     f"{type(tick).__name__} leaves {len(ws.queue)} accepted event(s) in the queue of step {name} with {len(ws.in_progress)} of "
+                     f"{ws.config.num_workers} worker(s) taken ({len(before.workers[name].queue)} queued, {len(before.workers[name].in_progress)} running before; "
+                     f"{len(started)} started by this tick)")]
+    return []
+
+
+def _c02_handover(tr: Trace, accepted: list[tuple]) -> list[Violation]:
+    """C02 'is handed exactly once to every step whose accepted type is the event's type ... unless the run ends first':
+    the routing rule (c) says WHO is owed the event; this rule says the delivery is made.  Everything is recomputed from
+    the reducer's inputs and outputs, not from its queue/in_progress tables: a delivery is owed from the add-event tick on
+    (recipients from the static graph), it is made by the CommandRunWorker that starts the step on that event, and a
+    worker of a step is busy from the CommandRunWorker that starts an invocation until that invocation's result tick is
+    reduced (counted per step, independent of worker ids).  After every reduction that does not end the run, an owed
+    delivery of a step with a free worker is a lost event: nothing further has to happen for that step, so nothing will
+    hand the event over (it would take an unrelated later tick)."""
+    if tr.spec.get("_resumed") or any(c.kind == "rewind" and any(isinstance(k, C.CommandRunWorker) for k in c.cmds) for c in tr.calls):
+        return []  # a resumed run starts with deliveries owed by the previous run: not tracked here
+    nw = _nw(tr)
+    owed_at: dict[int, list] = {}
+    for (c, name, e) in accepted:
+        owed_at.setdefault(id(c), []).append((name, e))
+    owed: list[list] = []  # [step, event, index of the add-event reduction]
+    busy: dict[str, int] = {}  # invocations started and not yet reported back, per step (a count: independent of the worker ids)
+    calls = _runner_calls(tr)
+    for i, c in enumerate(calls):
+        if c.kind != "reduce" or c.error is not None or c.after is None:
+            continue
+        if isinstance(c.tick, T.TickStepResult):
+            busy[c.tick.step_name] = busy.get(c.tick.step_name, 0) - 1
+        for (name, e) in owed_at.get(id(c), []):
+            owed.append([name, e, i])
+        for k in c.cmds:
+            if isinstance(k, C.CommandRunWorker):
+                busy[k.step_name] = busy.get(k.step_name, 0) + 1
+                hit = next((o for o in owed if o[0] == k.step_name and o[1] is k.event), None)
+                if hit is not None:
+                    owed.remove(hit)
+        if _is_exit(c.cmds):
+            break  # the run ends here (a stuck run: with the harness's own cancel)
+        for (name, e, at) in owed:
+            if busy.get(name, 0) < nw.get(name, 4):
+                how = _c02_turn_end(c.tick, c.cmds)
+                same = isinstance(c.tick, T.TickStepResult) and c.tick.step_name == name
+                return [Violation(f"C02/accepted_event_not_handed_to_step_with_free_worker:after_{how if same else 'other_tick'}",
+                                  f"event uid={getattr(e, 'uid', None)} T{ET.TY_ID.get(type(e))} was accepted for step {name} by reduction #{at} (add-event tick) and is "
+                                  f"still not handed to it after reduction #{i} ({type(c.tick).__name__}"
+                                  + (f" of {c.tick.step_name} worker {c.tick.worker_id}: the invocation {how.replace('_', ' ')}" if isinstance(c.tick, T.TickStepResult) else "")
+                                  + f"), although only {busy.get(name, 0)} of the step's {nw.get(name, 4)} worker(s) are busy and the run goes on", _replay(tr))]
+    # the same, end to end on the step bodies: the run went quiescent (nothing runnable, no timer, no terminal event) with an
+    # accepted event that never entered its step while the step had a free worker
+    if any("stuck: cancelled by harness" in n for n in tr.notes) and not any(s.get("sync") for s in tr.spec["steps"]):
+        stuck_steps = getattr(tr, "stuck_at", (len(tr.calls), 0))
+        entered: set = set()
+        live: dict[str, int] = {}
+        for rec in tr.steps:
+            if rec[0] == "enter":
+                entered.add((rec[1], repr(rec[2])))
+                live[rec[1]] = live.get(rec[1], 0) + 1
+            elif rec[0] == "exit":
+                if rec[5].get("status") == "cancelled":
+                    continue  # cancelled by the harness when it ended the stuck run: it was live until then
+                live[rec[1]] = live.get(rec[1], 0) - 1
+        for (name, e, at) in owed:
+            uid = ("sfe", e.step_name, getattr(e.input_event, "uid", None), e.attempts) if type(e).__name__ == "StepFailedEvent" else getattr(e, "uid", None)
+            if (name, repr(uid)) not in entered and live.get(name, 0) < nw.get(name, 4):
+                return [Violation("C02/accepted_event_never_entered_idle_step",
+                                  f"the run went quiescent with event uid={uid} accepted for step {name} (reduction #{at}) that never entered the step, "
+                                  f"while {live.get(name, 0)} of its {nw.get(name, 4)} worker(s) were running", _replay(tr))]
+    return []
+
+
 
 def mon_c02(tr: Trace) -> list[Violation]:
     out: list[Violation] = []
@@ -395,6 +501,7 @@ def mon_c02(tr: Trace) -> list[Violation]:
             out.append(Violation("C02/send_event_target_lost", f"ctx.send_event(step={rec[5]['target']}) arrived addressed to {puts[0].step_name}", _replay(tr)))
     # (c) per add-event tick: the set of steps that get the event is exactly the accepting (or addressed) ones,
     #     each once; a step with a matching waiter gets its original event replayed instead; else UnhandledEvent once
+    accepted: list[tuple] = []  # (reducer call, step, event): the deliveries the routing rule owes, from the static graph
     for c in _runner_calls(tr):
         if not isinstance(c.tick, T.TickAddEvent) or c.error is not None:
             continue
@@ -441,6 +548,12 @@ def mon_c02(tr: Trace) -> list[Violation]:
             out.append(Violation("C02/unhandled_event_report", f"event T{ty} accepted by {sorted(expect | woken)}: UnhandledEvent published {len(unhandled)} times", _replay(tr)))
         if out:
             return out
+        accepted += [(c, n, e) for n in sorted(expect)]
+    # (g) ... and every delivery owed is MADE: the event is handed to the step (its invocation is started) as soon as the
+    #     step has a free worker, unless the run ends first
+    out += _c02_handover(tr, accepted)
+    if out:
+        return out
     # (e) waits registered with an auto-generated waiter id, tracked from the reducer's INPUTS (what the step
     #     invocations asked for) rather than from the waiter table: an invocation that is still waiting for
     #     (type, requirements) gets a matching event as its wait result
